@@ -88,7 +88,8 @@ CallStep ==
                   \* ids handed out by the environment are adopted only when they are fresh and distinct
                   Rec == IF Functional(A) /\ Injective(A) /\ \A e \in A : e[1] >= nextId THEN RecOf(A) ELSE NoRec
                   R == Apply(table, nextId, o.k, atoms, Rec)
-              IN /\ IF R.ok THEN Mk(o.k, atoms, Rec) ELSE MkReject(o.k, atoms, Rec, 0)
+              IN /\ WFCall(o.k, atoms, table)
+                 /\ (MkWith(R) \/ MkRejectWith(R, 0))     \* Mk / MkReject with the outcome computed once
                  /\ bad' = bad \cup {<<c, l>> : c \in Clauses(o, R, atoms)}
                  /\ resid' = Append(resid, IF R.ok /\ o.r[1] = "ok" /\ o.r[2] \in IdsOf(R.T) THEN o.r[2] ELSE 0)
                  /\ seen' = IF o.r[1] = "ok" /\ o.r[2] \notin DOMAIN seen THEN seen @@ (o.r[2] :> o.r[3]) ELSE seen
